@@ -1,9 +1,10 @@
 import NemoVerif.Drive.Common
 import NemoVerif.Models.SlideGraph
 import NemoVerif.Models.ErrContain
+import NemoVerif.Models.RoundMachine
 
 namespace NemoVerif.Drive.C10
-open Lean NemoVerif NemoVerif.Drive NemoVerif.SlideGraph NemoVerif.ErrContain
+open Lean NemoVerif NemoVerif.Drive NemoVerif.SlideGraph NemoVerif.ErrContain NemoVerif.RoundMachine
 
 def optNat (j : Json) : Except String (Option Nat) :=
   match j with
@@ -61,6 +62,48 @@ def scoreOfString : String → Score
   | _ => .zero
 
 def candToJson (c : Cand) : Json := Json.arr #[Json.num (JsonNumber.fromNat c.fuid), Json.num (JsonNumber.fromNat c.huid)]
+
+def evKindOfJson (j : Json) : Except String EvKind :=
+  match j with
+  | .str "plain" => pure .plain
+  | .str "unhandled" => pure .unhandled
+  | .arr a => if h : a.size = 2 then do let g ← a[1].getNat?; pure (.start g) else throw "bad ev kind"
+  | _ => throw "bad ev kind"
+
+def waitKindOfString : String → WaitKind
+  | "tagged" => .intTagged
+  | "int" => .int
+  | "action" => .action
+  | _ => .ext
+
+def tokenOfJson (j : Json) : Except String Token := do
+  let a ← j.getArr?
+  if h : a.size ≥ 2 then
+    let tag ← a[0].getStr?
+    match tag with
+    | "ev" => do let k ← evKindOfJson a[1]; pure (.ev k)
+    | t =>
+      let f ← a[1].getNat?
+      let u ← (a.getD 2 .null).getNat?
+      let b ← (a.getD 3 .null).getBool?
+      if t == "xhead" then pure (.xhead f u b) else pure (.head f u b)
+  else throw "bad token"
+
+def rflowOfJson (j : Json) : Except String RFlow := do
+  let ctl ← progOfJson (← j.getObjVal? "ctl")
+  let emit ← (← (← j.getObjVal? "emit").getArr?).toList.mapM fun e => do (← e.getArr?).toList.mapM evKindOfJson
+  let wk ← (← (← j.getObjVal? "wk").getArr?).toList.mapM fun e => do pure (waitKindOfString (← e.getStr?))
+  let r ← (← j.getObjVal? "restartable").getBool?
+  let ca ← (← (← j.getObjVal? "catchAt").getArr?).toList.mapM fun e => do (← e.getArr?).toList.mapM (·.getNat?)
+  pure { ctl := ctl, emit := emit, wk := wk, restartable := r, catchAt := ca }
+
+/-- replay of a recorded round: every step must consume a token that is present and produce one of its outcomes (as a multiset) -/
+def replayRound (P : RProg) : Nat → List Token → List (Token × List Token) → Except String Nat
+  | n, _, [] => pure n
+  | n, T, (tok, o) :: rest =>
+    if !T.contains tok then throw s!"step {n}: token {repr tok} is not present"
+    else if !(tokOutcomes P tok).any (fun o' => o'.isPerm o) then throw s!"step {n}: {repr o} is not an outcome of {repr tok}"
+    else replayRound P (n + 1) (T.erase tok ++ o) rest
 
 def handle (op : String) (j : Json) : Except String Json := do
   match op with
@@ -121,6 +164,28 @@ def handle (op : String) (j : Json) : Except String Json := do
         | some r => Json.mkObj [("matching", Json.arr (r.matching.map candToJson).toArray), ("failing", Json.arr (r.failing.map candToJson).toArray)]),
       ("repaired", Json.mkObj [("matching", Json.arr (rep.matching.map candToJson).toArray), ("failing", Json.arr (rep.failing.map candToJson).toArray),
         ("erroring", Json.arr (rep.erroring.map candToJson).toArray)])])
+  | "round" =>
+    let P ← (← (← j.getObjVal? "prog").getArr?).toList.mapM rflowOfJson
+    let p := buildPot P
+    let ranked := potOk P p
+    let rounds ← match j.getObjVal? "rounds" with
+      | .ok (.arr a) => a.toList.mapM fun r => do
+          let T ← (← (← r.getObjVal? "tokens").getArr?).toList.mapM tokenOfJson
+          let steps ← (← (← r.getObjVal? "steps").getArr?).toList.mapM fun st => do
+            let q ← st.getArr?
+            if h : q.size = 2 then do
+              let tok ← tokenOfJson q[0]
+              let o ← (← q[1].getArr?).toList.mapM tokenOfJson
+              pure (tok, o)
+            else throw "bad step"
+          pure (T, steps)
+      | _ => pure []
+    let res := rounds.map fun (T, steps) =>
+      Json.mkObj [("bound", Json.num (JsonNumber.fromNat (roundBound P p T))),
+        ("replay", match replayRound P 0 T steps with
+          | .ok n => Json.num (JsonNumber.fromNat n)
+          | .error e => .str e)]
+    pure (Json.mkObj [("ranked", .bool ranked), ("rounds", Json.arr res.toArray)])
   | _ => throw s!"unknown op C10.{op}"
 
 end NemoVerif.Drive.C10
